@@ -52,7 +52,7 @@ def ids_arg(ids):
 
 def gen_ops(rng, sim, n, ops, recent, allow_bad=True):
     """append ~n random ops"""
-    ks = rng.choice([[1, 1, 1, 2], [1, 2, 3, 5], [0, 1, 3, 100], [1, 100, 65535], [5, 100, 100]])
+    ks = rng.choice([[1, 1, 1, 2], [1, 2, 3, 5], [0, 1, 3, 100], [5, 100, 100]] * 3 + [[1, 100, 65535]])
     rel_w = rng.choice([0.25, 0.4, 0.55])
     for _ in range(n):
         r = rng.random()
@@ -131,7 +131,7 @@ def gen(rng):
         ids = rng.sample(range(1, 15), k)
         sim.out.update(ids); recent.extend(ids)
         ops.append(f"mark {ids_arg(ids)}")
-    if limit == 65535 and rng.random() < 0.5:
+    if limit == 65535 and rng.random() < 0.1:
         # nearly full id space: everything handed out, holes punched, cursor has wrapped to 1
         ops.append("poll 65535"); sim.poll(65535)
         holes = sorted(set(rng.choice([1, 2, 3, 100, 4096, 65534, 65535, rng.randint(1, MAXID)]) for _ in range(rng.randint(1, 6))))
@@ -171,7 +171,10 @@ def gen_long(seed):
                 ops.append(f"release {i}")
             else:
                 break
-            handed += len(sim.wake())
+            woke = sim.wake()
+            handed += len(woke); fifo.extend(woke)
+        if len(ops) > 400000:
+            break
         if rng.random() < 0.0005:
             ops.append("dump")
     ops.append("dump")
